@@ -41,6 +41,9 @@ C11_SYSCTL = (" Sysctl part: the same enumerations (depth <= 3), the 1..300 reco
               "\"N\\n\", cannot create files), injects the scripted permission / not-exist / I/O failures and logs in the format of the recording State, "
               "so the same host-state oracle applies; any other path, key or value, or a final file content different from the last successful write, is a violation.")
 E2E_RULE = {
+    "C04": (" Whole-process part (24 / 1200 cases): once the process is up the forwarding state of every interface is inverted (the fake OS reads it per call); the "
+            "debug API and /metrics read right afterwards, the answer to a solicitation 1.2 s after the start and the final RA must follow the new state (router "
+            "lifetime, forwarding gauge, interface_not_forwarding gauge), RAs generated before the change the old one, those within 50 ms of it either."),
     "C18": (" Whole-process part (24 / 1200 cases): every monitoring interface of the running process receives an RA (M set, lifetime 1800 s, one prefix), the same RA "
             "with hop limit 64 and an RS; a scrape of the real /metrics afterwards must show exactly: received counters for the RA and the RS under their hosts, the "
             "M/O gauges, default-route and prefix expiry timestamps within [read, scrape] + lifetime, the prefix flags, one invalid RA - and nothing else for that interface."),
@@ -428,9 +431,11 @@ PROPS = {
         "level_note": "Trusts the reference model polModel (written from the statement), testing/synctest, and the in-memory fakes.",
     },
     "C04": {
-        "pkg": "internal/corerad",
-        "files": ["corerad/zz_verif_C12_test.go", "corerad/zz_verif_sim_test.go", "corerad/zz_verif_adv_test.go", "corerad/zz_verif_mon_test.go", "corerad/zz_verif_C06_test.go", "corerad/zz_verif_C04_test.go"],
-        "run": "TestVerif_C04",
+        "parts": [
+            {"pkg": "internal/corerad", "run": "TestVerif_C04", "shards": {"quick": 8, "thorough": 16},
+             "files": ["corerad/zz_verif_C12_test.go", "corerad/zz_verif_sim_test.go", "corerad/zz_verif_adv_test.go", "corerad/zz_verif_mon_test.go", "corerad/zz_verif_C06_test.go", "corerad/zz_verif_C04_test.go"]},
+            e2e_part("TestVerif_C04main"),
+        ],
         "level": "exploration",
         "bubble": True,
         "quick": {"shards": 8},
